@@ -100,6 +100,29 @@ def adversarial_graph(rng):
     return g
 
 
+def other_schemes(rng, g):
+    """the same graph with some predicates, object IRIs, datatypes and classes renamed to IRIs of other schemes than http(s)"""
+    ren = {}
+    def r(x, kind):
+        if x not in ren:
+            k = len(ren)
+            ren[x] = rng.choice(['urn:%s:%d', 'mailto:%s%d@example.org', 'ftp://files.example.org/%s/%d', 'tag:example.org,2024:%s%d']) % (kind, k) \
+                if rng.random() < 0.5 else x
+        return ren[x]
+    out = []
+    for s, p, o in g:
+        if p != RDF_TYPE:
+            p = r(p, 'p')
+        if o[0] == 'I':
+            o = ('I', r(o[1], 'c' if p == RDF_TYPE else 'o'))
+        elif o[0] == 'L' and o[3] is None and o[2] != XSD + 'string':
+            o = ('L', o[1], r(o[2], 'dt'), None)
+        if s[0] == 'I' and s[1] in ren:
+            s = ('I', ren[s[1]])
+        out.append((s, p, o))
+    return out
+
+
 class Hang(Exception):
     pass
 
@@ -199,6 +222,36 @@ def run(ctx):
                         hit.add(fid)
                     else:
                         viol.append({"what": "%s(%s) raised %s: %s" % (what, fmt, r[1], r[2]), "where": obs["where"], **pipeline.case_json(g, cfg)})
+    # ---------------- (b2) crash search only (no model comparison): disjunctions enabled, IRIs of other schemes than http(s)
+    n2 = 120 if ctx.tier == "quick" else 2000
+    stats["or_scheme_calls"] = 0
+    stats["or_scheme_disjunction_outputs"] = 0
+    for i in range(n2):
+        g = adversarial_graph(rng) if i % 2 else gen.gen_graph(rng)
+        if i % 3 == 0:
+            g = other_schemes(rng, g)
+        cfg = gen.gen_cfg(rng, g, presentation=True, allow_or=True)
+        if i % 2:
+            cfg['disable_or'] = False
+            cfg['allow_redundant_or'] = rng.random() < 0.5
+        nt = to_nt(g)
+        kw = impl.shaper_kwargs(cfg)
+        th = cfg['th'][0] / cfg['th'][1]
+        for fmt in (C.SHEXC, C.SHACL_TURTLE):
+            res = []
+            r = call(lambda: res.append(Shaper(raw_graph=nt, input_format=C.NT, **kw).shex_graph(string_output=True, acceptance_threshold=th, output_format=fmt)))
+            stats["or_scheme_calls"] += 1
+            stats["pipeline_calls"] += 1
+            stats["or_scheme_disjunction_outputs"] += bool(res) and (" OR " in res[0] or "sh:or" in res[0])
+            if r is not None:
+                stats["exceptions"][r[1]] = stats["exceptions"].get(r[1], 0) + 1
+                obs = {"kind": "exception", "exc": r[1], "msg": r[2], "where": r[3] if len(r) > 3 else "", "cfg": cfg, "triples": g,
+                       "call": "shex_graph", "format": fmt}
+                fid = F.match(kf, obs)
+                if fid:
+                    hit.add(fid)
+                else:
+                    viol.append({"what": "shex_graph(%s) raised %s: %s" % (fmt, r[1], r[2]), "where": obs["where"], **pipeline.case_json(g, cfg)})
     # ---------------- (c) other accepted configurations: every input syntax, shape maps, empty target list
     import rdflib
     stats["syntax_calls"] = {}
@@ -264,5 +317,6 @@ def run(ctx):
                            "(a) every group of node-kind constraints of one property with bnode?/iri? x 0..%d shape references x counts 1..%d x both insertion "
                            "orders x 3 OR configurations, fed to MergeableConstraints.merge_group in-process; (b) C01 generator + adversarial mixes (IRI and "
                            "blank-node values with/without classes, non-target classes, nodes without outgoing triples, one-instance classes, "
-                           "language tags) x accepted configurations x {ShExC, SHACL} x {shex_graph, profile_graph}" % ((2, 3) if ctx.tier == "quick" else (3, 4)),
+                           "language tags) x accepted configurations x {ShExC, SHACL} x {shex_graph, profile_graph}; (b2) the same with disjunctions enabled "
+                           "(with / without allow_redundant_or) and with predicates, classes, object IRIs and datatypes of the schemes urn:, mailto:, ftp:, tag:" % ((2, 3) if ctx.tier == "quick" else (3, 4)),
                            DEPS)
